@@ -115,13 +115,11 @@ func (m *Model) Rearrange(perm []int) {
 			}
 		}
 	})
-	for _, set := range m.Sets {
-		set.ForEach(func(ts *TokenSet) {
-			if nt := ts.Symbol - terms; nt >= 0 {
-				ts.Symbol = terms + perm[nt]
-			}
-		})
-	}
+	m.forEachSet(func(ts *TokenSet) {
+		if nt := ts.Symbol - terms; nt >= 0 {
+			ts.Symbol = terms + perm[nt]
+		}
+	})
 	for i, input := range m.Inputs {
 		m.Inputs[i].Nonterm = perm[input.Nonterm]
 	}
@@ -457,9 +455,21 @@ type TokenSet struct {
 	Origin status.SourceNode
 }
 
+// forEachSet visits all token set expressions of the model exactly once (named sets can
+// share subexpressions by referring to each other).
+func (m *Model) forEachSet(consumer func(ts *TokenSet)) {
+	seen := make(map[*TokenSet]bool)
+	for _, set := range m.Sets {
+		set.forEach(seen, consumer)
+	}
+}
+
 // ForEach visits all token set expressions in the tree.
 func (ts *TokenSet) ForEach(consumer func(ts *TokenSet)) {
-	seen := make(map[*TokenSet]bool)
+	ts.forEach(make(map[*TokenSet]bool), consumer)
+}
+
+func (ts *TokenSet) forEach(seen map[*TokenSet]bool, consumer func(ts *TokenSet)) {
 	var visit func(ts *TokenSet)
 	visit = func(t *TokenSet) {
 		if seen[t] {
